@@ -58,6 +58,7 @@ type tapeFile struct {
 type summary struct {
 	Summary  bool     `json:"summary"`
 	Aborted  bool     `json:"aborted,omitempty"`
+	Leftover bool     `json:"leftover,omitempty"`
 	Runs     int      `json:"runs"`
 	Pairs    []uint32 `json:"pairs"`
 	Sites    []int    `json:"sites"`
@@ -163,11 +164,17 @@ func main() {
 		for _, v := range res.Violations {
 			if len(v.Sig) > 5 && v.Sig[:5] == "hang:" {
 				hangs++
-				if len(v.Sig) > 18 && v.Sig[:18] == "hang:real-deadlock" {
-					hangs = 5 // an abandoned goroutine stays behind: this process is done
-				}
 				break
 			}
+		}
+		if res.Leaked && hangs < 5 {
+			// abandoned goroutines stay behind (a worker pool of the library
+			// waiting for work, or a task blocked for ever): this process is
+			// done, the driver starts another one for the remaining seeds
+			fmt.Fprintf(os.Stderr, "END leftover goroutines after seed %d\n", seed)
+			enc.Encode(summary{Summary: true, Runs: i + 1, Aborted: true, Leftover: true, Pairs: simrt.Pairs(), Sites: simrt.SitesHit(), Counters: simrt.CounterNames()})
+			out.Flush()
+			os.Exit(0)
 		}
 		if hangs >= 5 {
 			fmt.Fprintf(os.Stderr, "END aborted after %d runs: %d runs hit the step cap\n", i+1, hangs)
